@@ -396,8 +396,9 @@ for the same number of ticks.
 def complex_sustain_from_parsed_datas(datas: Sequence[NoteEvent.ParsedData]) -> ComplexSustain:
     """Returns a ``ComplexSustain`` incorporating the sustains of multiple ``ParsedDatas``.
 
-    If ``datas`` has multiple elements, one or more of which correspond to open notes, this
-    function's behavior is undefined.
+    An open note may be accompanied by flag lines (tap / forced) in any order; its own written
+    length is reported. If ``datas`` mixes an open note with normal note lanes, this function's
+    behavior is undefined.
 
     Args:
         datas: The datas whose sustain values should be coalesced.
@@ -405,10 +406,12 @@ def complex_sustain_from_parsed_datas(datas: Sequence[NoteEvent.ParsedData]) -> 
     Returns:
         The sustain values of ``datas`` coalesced into a single ``ComplexSustain``.
     """
-    # Undefined behavior if there are other open notes. We could validate this, but this function
-    # runs in a very tight loop.
-    if datas[0].note_track_index == NoteTrackIndex.OPEN:
-        return datas[0].sustain
+    # Undefined behavior if an open note is mixed with normal notes. We could validate this, but this
+    # function runs in a very tight loop. The open note's line need not be the first one of its
+    # tick: in ascending index order FORCED (5) and TAP (6) lines precede the OPEN (7) line.
+    for d in datas:
+        if d.note_track_index == NoteTrackIndex.OPEN:
+            return d.sustain
 
     sustain_list = _SustainList([None] * 5)
     for d in filter(lambda d: d.note_track_index.is_5_note(), datas):
